@@ -194,6 +194,8 @@ theorem C04_arm (ext : Ext F) (laws : ExtLaws ext) (s : Scalar) (a : Action) (v 
   | boolStr => exact C04_arm_boolStr ext s v hs hw
   | symStr => exact C04_arm_symStr ext s v hs hw
   | convStrict t => exact C04_arm_convStrict ext s t v hs hw
+  | parseInt32Keep => simp [armSoundIn] at hs
+  | fmtUint => simp [armSoundIn] at hs
 
 /-- **C04_leaf.**  Table level: whatever arm the regenerated `CoerceIn` table selects for the supplied
 value, if it passes the decidable test the outcome is an error (no resolver call) or a conforming
